@@ -162,6 +162,14 @@ func (f *fnSpec) run(got []reflect.Value) (outs []reflect.Value, nilPtr bool, er
 			return outs, false, &E0{ID: eid}
 		}
 	}
+	if f.Script == "identity" {
+		var os []string
+		for _, v := range got {
+			os = append(os, fmt.Sprint(vidOf(v)))
+		}
+		f.sc.events = append(f.sc.events, fmt.Sprintf("%s outs=%s", ev, strings.Join(os, ",")))
+		return got, false, nil
+	}
 	if f.Script == "typednil" && f.HasErr {
 		f.sc.events = append(f.sc.events, fmt.Sprintf("%s err=typednil", ev))
 		for _, l := range f.Outs {
@@ -534,6 +542,8 @@ func classifyPanic(r interface{}) string {
 		return "setNotAssignable"
 	case strings.Contains(s, "Elem of invalid type") || strings.Contains(s, "reflect.Value.Elem"):
 		return "elemOnStruct"
+	case strings.Contains(s, "reflect.StructOf"):
+		return "structof"
 	case strings.Contains(s, "nil pointer dereference"):
 		return "nilDeref"
 	}
@@ -590,6 +600,8 @@ func (sc *scenario) classifyErr(err error) string {
 		return "nilarg"
 	case strings.Contains(err.Error(), "This is a bug"):
 		return "missingarg"
+	case strings.Contains(err.Error(), "cannot redefine: more than one required input is named"):
+		return "dupname"
 	case strings.Contains(err.Error(), "fn should be a function"):
 		return "notfunc"
 	}
